@@ -4,7 +4,8 @@
 import ast
 
 from ..engine import rule
-from ..flow import PRUNE, Flags, Violation, explore, implied_atoms, \
+from ..flow import PRUNE, Flags, Violation, explore, if_branches, \
+    implied_atoms, \
     path_ends, path_is, prov_has, provenance, store_value
 from ..model import dotted, walk_local
 from ..twopc import FS
@@ -141,9 +142,16 @@ def r4(R):
     # the flag variable: a local boolean set False where data differs
     flag = None
     for x in walk_local(f.node):
-        if isinstance(x, ast.If) and isinstance(x.test, ast.Compare) and \
-                isinstance(x.test.ops[0], ast.NotEq):
-            for y in x.body:
+        if not isinstance(x, ast.If):
+            continue
+        # the block entered when two values were found to DIFFER
+        for atoms, block in if_branches(x):
+            if not any(isinstance(e, ast.Compare) and len(e.ops) == 1 and
+                       isinstance(e.ops[0], (ast.Eq, ast.NotEq)) and
+                       isinstance(e.ops[0], ast.NotEq) == t
+                       for e, t in atoms):
+                continue
+            for y in block:
                 if isinstance(y, ast.Assign) and isinstance(
                         y.value, ast.Constant) and y.value.value is False \
                         and isinstance(y.targets[0], ast.Name):
@@ -254,3 +262,93 @@ def r6(R):
         R.violation((b_.module.relpath, b_.qualname, 'reset undone'),
                     'tpc_begin does not start with an empty set of undone '
                     'oids')
+
+
+# ------------------------------------------------------------------ C06.R7
+@rule('C06.R7', 'undo decides "nothing changed since" by comparing the data '
+      'of the record being undone with the data of the object\'s CURRENT '
+      'record', props=['C03'], min_instances=1)
+def r7(R):
+    """Flow-sensitive kinds of the locals of _transactionalUndoRecord:
+    'undone'  = loaded through the position of the record being undone
+                (the `pos` parameter),
+    'current' = what _undoDataInfo() reports for the current record, or
+                loaded through the current record's data pointer.
+    The inequality that switches from copying to merging must compare one
+    of each; comparing two loads of the same record is always "equal" and
+    turns every undo into a blind overwrite of later changes."""
+    cls = R.prog.cls(FS)
+    f = R.method(cls, '_transactionalUndoRecord')
+    g, b, F = R.cfg(f, cls, max_depth=0)
+    ps = [p for p in f.params if p != 'self']
+    undone_pos = ps[1]
+    seen = [0]
+
+    def kinds_after(node, kinds, lab):
+        a = node.ast
+        if lab in ('e', 'eb') or node.kind != 'stmt' or not isinstance(
+                a, ast.Assign):
+            return kinds
+        d = dict(kinds)
+        v = a.value
+        sub = None
+        if isinstance(v, ast.Subscript):          # f(...)[0]
+            sub, v = v, v.value
+        kind = None
+        ptr = False
+        if isinstance(v, ast.Call) and dotted(v.func):
+            fn_ = dotted(v.func)[-1]
+            if fn_ == '_undoDataInfo':
+                kind, ptr = 'current', True
+            elif fn_.startswith('_loadBack') and len(v.args) >= 2:
+                p_ = v.args[1]
+                if isinstance(p_, ast.Name):
+                    if p_.id == undone_pos:
+                        kind = 'undone'
+                    elif d.get(p_.id) == 'current-ptr':
+                        kind = 'current'
+        for t in a.targets:
+            names = [x.id for x in ast.walk(t) if isinstance(x, ast.Name)]
+            for i, nm in enumerate(names):
+                d.pop(nm, None)
+                if kind and ptr and isinstance(t, ast.Tuple):
+                    # ctid, cdataptr, current_data = self._undoDataInfo(..)
+                    d[nm] = 'current-ptr' if i == 1 else (
+                        'current' if i == 2 else 'current-tid')
+                elif kind:
+                    d[nm] = kind
+        return frozenset(d.items())
+
+    def edge(node, st, lab, tgt):
+        kinds = kinds_after(node, st, lab)
+        if node.kind == 'test' and lab in ('T', 'F'):
+            for e, truth in implied_atoms(node.ast, lab):
+                if isinstance(e, ast.Compare) and len(e.ops) == 1 and \
+                        isinstance(e.ops[0], (ast.Eq, ast.NotEq)) and \
+                        isinstance(e.left, ast.Name) and isinstance(
+                            e.comparators[0], ast.Name):
+                    k = dict(kinds)
+                    ks = [k.get(e.left.id), k.get(e.comparators[0].id)]
+                    if 'undone' in ks or 'current' in ks:
+                        seen[0] += 1
+                        if sorted(x or '?' for x in ks) != ['current',
+                                                            'undone']:
+                            return Violation(
+                                'the comparison `%s` that decides whether '
+                                'the object changed after the transaction '
+                                'being undone compares %s with %s: it must '
+                                'compare the data of the record being undone '
+                                'with the data of the current record, or a '
+                                'later change is overwritten without merge '
+                                'or UndoError' % (
+                                    ast.unparse(e), ks[0] or 'an unknown '
+                                    'value', ks[1] or 'an unknown value'))
+        return kinds
+
+    vs, stats = explore(g, frozenset(), edge=edge)
+    R.count(stats)
+    R.instance('FileStorage._transactionalUndoRecord data comparison')
+    R.require(seen[0] or vs, 'the comparison of undone and current data '
+              'vanished from _transactionalUndoRecord')
+    for v in vs:
+        R.violation(v.node, v.message, g, v.path)
